@@ -569,6 +569,9 @@ impl MempoolInner {
                             .add(promotion_tx, current_nonce, &current_balances)
                     {
                         self.contained_txs.remove(&tx_id);
+                        // the transaction is gone from both containers: report it as removed so
+                        // that it is not silently lost
+                        removed_txs.push((tx_id, RemovalReason::InternalError));
                         self.metrics.increment_internal_logic_error();
                         error!(
                             address = %telemetry::display::base64(&address_bytes),
@@ -586,6 +589,9 @@ impl MempoolInner {
                             .add(demotion_tx, current_nonce, &current_balances)
                     {
                         self.contained_txs.remove(&tx_id);
+                        // the transaction is gone from both containers (e.g. the parked
+                        // container is full): report it as removed so that it is not silently lost
+                        removed_txs.push((tx_id, RemovalReason::InternalError));
                         self.metrics.increment_internal_logic_error();
                         error!(
                             address = %telemetry::display::base64(&address_bytes),
